@@ -18,7 +18,7 @@ IMPORTS = {
     ],
     "C02": [
         # NOT adopted: C04/K1, K6 (the calibration of tau): a key released above a too low threshold is still thresholded - C04's matter, not a plain function of protected rows
-        ("C04", ["K2", "K3", "K4", "K5", "K7", "B1", "B2", "B3"], None,
+        ("C04", ["K2", "K3", "K4", "K5", "K7", "K8", "B1", "B2", "B3"], None,
          "the grouping-key columns of a DP result are plain functions of protected rows: they may leave only through the tau-thresholding pipeline "
          "(cap, count of units, noise, strict threshold, projection) or from declared public values"),
         ("C13", ["G1", "G2", "G4"], None,
@@ -38,6 +38,11 @@ IMPORTS = {
          "the threshold must be at least the tau required by the (epsilon, delta) SHARE reserved for key release: the budget handed to differentially_private_group_by is "
          "the reserved share of both parameters (a tau computed from another share is calibrated for another delta)"),
     ],
+    "C05": [
+        ("C02", ["T2"], None,
+         "the tracker methods only run when the Rewriter dispatches a rule to them: a rule `(Published, PUP) -> PUP` that the Rewriter's match sends to the pass-through arm rebuilds the join as a plain join - "
+         "its output carries no unit id although it is labelled privacy-unit preserving"),
+    ],
     "C06": [
         # NOT adopted: C12/J2 (images checked against the co-domain).  An unchecked image is still a superset of the values; it matters to C06 only when the
         # function's own domain test is gone as well, which is what C06/D decides (one of the two guards is enough).
@@ -52,6 +57,7 @@ IMPORTS = {
          "Join::size bounds the row count by max(|left|, |right|) instead of the product as soon as a join key is declared UNIQUE / PRIMARY KEY "
          "(JoinOperator::has_unique_constraint reads the field constraints): a column wrongly declared unique makes the declared size interval too small"),
         ("C15", ["H5"], None, "a table reference bound to another CTE of the same name gives the relation the schema (and size) of another query"),
+        ("C08", ["E25"], None, "the WHERE narrowing of Map::schema_exprs is computed from the predicate as read: a negated predicate read as the plain one declares x: int[3 7] for rows that are all outside [3, 7]"),
         ("C08", ["E22"], None, "the operands of a set operation are compiled in the order written: `A EXCEPT B` read as `B EXCEPT A` declares B's column types and size for rows that come from A"),
     ],
     "C08": [
@@ -69,11 +75,17 @@ IMPORTS = {
         ("C05", ["Y1", "Y1b", "Y5", "Y7"], None,
          "the DP aggregation runs over the privacy-unit-tracked input: the tracked join must keep the query's own operator and ON condition (the unit equality is conjoined, not substituted) or rows are "
          "duplicated / lost; rows whose unit id is NULL get a NULL scale factor (NULL = NULL is not true in the join with the factors) and vanish from every sum"),
+        ("C04", ["B3"], None,
+         "the DP aggregation runs over the tracked copy of the query's maps (`Relation::map().with(..).with(map.clone())`): a re-builder that loses the WHERE of the map it copies "
+         "makes the rewritten query aggregate rows the original discards"),
         ("C04", ["K5"], None,
          "'public keys left-joined so that empty groups still appear': the aggregation input is the LEFT JOIN of the grouping values with the tracked rows on equality of every key - "
          "another condition gives every group the rows of the others"),
     ],
     "C10": [
+        ("C08", ["E25"], None, "the predicate that reaches DataType::filter is the one the SQL reader built: a NOT BETWEEN / NOT IN / NOT LIKE read without its negation narrows the column to the rows the clause rejects"),
+        ("C11", ["N1"], None, "a comparison between a date and a datetime column converts the date type through its enumerated values (into_values): an enumeration that stops one day early narrows "
+         "`d >= s` to a type without the last day - the row holding it satisfies the predicate and is dropped"),
         ("C11", ["L3", "L5", "L8"], r"super_(union|intersection)",
          "the And / Or / comparison arms combine column types with super_intersection / super_union and test is_subset_of: an approximate union that loses a "
          "value (the NULL of an optional operand) loses the rows holding it"),
@@ -83,9 +95,15 @@ IMPORTS = {
     "C11": [
         # NOT adopted: C12/J2 - the cross-variant arms re-test `image.is_subset_of(other)`; an arm that trusts the injection instead (`.is_ok()`) is tied to J2 by C11/L3 itself.
         # J4 only for pairs dispatched from Base<X, DataType> (the API-only pair DateTime -> Date is not reachable from the lattice operations)
+        ("C12", ["J9"], None, "is_subset_of decides `(s, Null)` and the other cross-variant pairs by injecting s into the other type: an injection that accepts the empty type for a non-empty set "
+         "answers `bool is a subset of null`"),
         ("C12", ["J8"], None, "super_union / super_intersection of two different variants loop on into_common_super_variant, which converts with `other.maximal_superset()`: a variant left to the default arm "
          "(Any) is never brought into the other's variant and the union of date and datetime recurses until the stack overflows instead of answering datetime"),
         ("C12", ["J4"], r"@dispatched", "the cross-variant arms of is_subset_of / super_union / super_intersection convert one side with the injection: an image that misses values of the converted side loses them from the union / answers `subset` wrongly"),
+    ],
+    "C12": [
+        ("C11", ["L10"], None, "lifting a value into a container type (Base<X, List> .. value) wraps it and relies on `co_domain.contains(..)` to refuse what the type does not admit: "
+         "a `contains` that skips a component returns a converted value that is not in the converted type"),
     ],
     "C13": [
         ("C05", ["T5"], None,
@@ -93,6 +111,8 @@ IMPORTS = {
          "a derivation that the search found is refused when it is applied - the compiler aborts although a consistent derivation exists"),
     ],
     "C14": [
+        ("C04", ["B4"], None, "the UNIQUE flag of a group key is computed from the aggregates (the single First(..) column) and stays on the rebuilt Reduce: a re-builder that loses the GROUP BY leaves a column declared "
+         "UNIQUE over an ungrouped input"),
         ("C08", ["E9"], None,
          "the property is about the EXECUTED result: the uniqueness flags are computed on the expression tree of the ON clause, the engine runs its rendering - "
          "an operand that loses its parentheses (`k AND a OR b`) makes the executed join match other rows than the one the flags were computed for"),
@@ -105,7 +125,7 @@ IMPORTS = {
     "C16": [
         # NOT adopted: E10, E11, E15 decide how SQL is READ (GROUP BY alias, WHERE of the builders, split order): a mis-read query still renders and re-reads
         # to the same relation, so C16's fixpoint holds.
-        ("C08", ["E3", "E4", "E5", "E7", "E8", "E9", "E12", "E13", "E16", "E17", "E18", "E20", "E21", "E23"], None,
+        ("C08", ["E3", "E4", "E5", "E7", "E8", "E9", "E12", "E13", "E16", "E17", "E18", "E20", "E21", "E23", "E26"], None,
          "re-parsing the rendered SQL must reproduce the semantics and the output schema of the relation it came from: every operator is rendered under a spelling "
          "read back as the same operator, every node component, alias, parenthesis, CASE branch and CTE is rendered where the reader expects it"),
     ],
